@@ -774,7 +774,7 @@ def run_case(case):
                                             "dir": dirs[k].tolist()}})
         cells.append("/".join([case["method"], state, spin, conv_l, sp2_l, case["layout"]]))
         if case.get("dispersion"):
-            cells.append("dispersion/%s/%s" % (case["method"], "+".join("%s-%s@%s" % d if d[1] else d[0] for d in case["dimers"])))
+            cells.append("dispersion/%s/%s" % (case["method"], "+".join("%s-%s@%s" % tuple(d) if d[1] else d[0] for d in case["dimers"])))
         for mo in live:
             cells.append("mode/%s/%s/%s/%s" % (case["method"], mo, state if exc else spin, orient_l))
         if case["kind"] == "pair":
